@@ -523,7 +523,18 @@ class PoolSuite(PipeSuite):
         return [("search: widths 2,3,5 x all configurations x 6 dispatches", ["--gen", "small", "--count", "6", "--seed", s], {"shards": 2})]
 
 
-SUITES = {"plan": PlanSuite(), "exec": ExecSuite(), "world": WorldSuite(), "sysdata": SysdataSuite(), "meta": MetaSuite(),
+class CellsSuite(PipeSuite):
+    """S9: which pool runs the systems of every builder of a tree of nested batches (model PoolCells.v)"""
+    name = "cells"
+
+    def gens(self, tier, seed, sspec):
+        s = str(seed)
+        n = {"quick": "40", "thorough": "1500"}.get(tier, "300")
+        return [("random trees of add_pool / add_batch calls (depth <= 3, three named user pools), a probe system in every builder; the situations of the repaired defect first",
+                 ["--count", n, "--seed", s], {"shards": 4})]
+
+
+SUITES = {"cells": CellsSuite(), "plan": PlanSuite(), "exec": ExecSuite(), "world": WorldSuite(), "sysdata": SysdataSuite(), "meta": MetaSuite(),
           "parseq": ParseqSuite(), "async": AsyncSuite(), "pool": PoolSuite()}
 
 
